@@ -441,7 +441,8 @@ Section Redo.
   Proof.
     intros Hc ->. unfold download, download_gen. set (h := dhex (ldg l)). destruct (bget h (rs r)); [eexists; reflexivity|].
     rewrite Hc, N.eqb_refl. cbn [andb].
-    destruct (partrec_state h 0 (debris (rs r))) as [[| |]|]; cbn [negb]; try (eexists; reflexivity);
+    destruct (partrec_state h 0 (debris (rs r))) as [[| |]|]; cbn [negb orb];
+      try destruct (existsb (dfile_eqb (DPartial h)) (debris (rs r))); try (eexists; reflexivity);
       destruct (size_of h =? 0); eexists; reflexivity.
   Qed.
 
